@@ -582,6 +582,7 @@ package pubsub
 //@   property C07 C08 C09
 //@   requires state: sepMesh(gs) && sepBackoff(gs) && sepFanout(gs) && validBackoffParams(gs) && gs.direct != nil
 //@   requires history: gs.mcache != nil && mcRep(gs.mcache)
+//@   requires gossip-params: gs.p != nil && gs.params.MaxIHaveLength >= 0 && gs.params.Dlazy >= 0 && gs.params.GossipFactor >= 0.0
 //@   noframe
 //@   loop 1 invariant stable: hbStable(gs) && hbMaps(scores, tograft, toprune, noPX)
 //@   loop 1 invariant history: gs.mcache == old(gs.mcache) && mcRep(gs.mcache)
